@@ -92,6 +92,14 @@ CHECKS = {
             '10-week window x 31 holiday subsets; TODAY under 10 injected clock answers (local instant, UTC offset)',
             'trusted: datetime/calendar modules; the clock shim replaces the datetime module of the generated namespace',
             'DESIGN.md section 2 C15'),
+    'C17': ('bounded-exhaustive enumeration of texts x positions/counts on the real pipeline, judged by Python slicing, an '
+            'escaped case-insensitive regex search and the reference text forms',
+            'all texts up to length 3 (4 thorough) over {a,B,?,*,~,.,(} x every count/start in -1..len+2 for LEFT, RIGHT, MID and '
+            'the LEFT&MID identity (overrides; short texts also as constants and literals); SEARCH over all find texts up to '
+            'length 2 (3) over 6 characters x all within texts up to length 3 (4) over 5 characters x every start; & and '
+            'CONCATENATE over all ordered pairs/triples of 12 operand values; VALUE over the decimal grid texts with sign, padding, '
+            'exponent and percent forms',
+            'trusted: re/str of Python; mc/ref/formula.py text forms', 'DESIGN.md section 2 C17'),
 }
 
 PENDING_REASON = 'check not built yet in this session; see DESIGN.md section 2 for the planned model-checking approach'
